@@ -477,6 +477,7 @@ def run(ctx, tier):
     results += c07.overlay_first(ctx, rule='C01.overlay-first')
     results += c07.read_via_overlay(ctx, rule='C01.read-via-overlay')
     results += c07.reresolve(ctx, rule='C01.reresolve')
+    results += c07.id_form_opaque(ctx, rule='C01.id-form-opaque')
     results += c07.single_root(ctx, rule='C01.single-root')
     results += c07.scan_skips_empty(ctx, rule='C01.scan-skips-empty')
     results += c08.bounds_total(ctx, rule='C01.bounds-total')
@@ -495,6 +496,7 @@ def run(ctx, tier):
     results += c05.reader_writer_tables(ctx, rule='C01.reader-writer-tables')
     results += c05.page_kinds(ctx, rule='C01.page-kinds')
     results += c05.run_length(ctx, rule='C01.run-length')
+    results += c05.children_follow_data(ctx, rule='C01.children-follow-data')
     results += c05.parent_links_refreshed(ctx, rule='C01.parent-links-refreshed')
     results += c05.separator_refreshed(ctx, rule='C01.separator-refreshed')
     results += _renamed(c05.pointers(ctx), 'C05')
